@@ -3,6 +3,7 @@ import os, stat, shutil, hashlib
 from hypothesis import strategies as st
 
 from vlib import treecanon
+import vlib
 from vlib.runner import run_hypothesis, Violation, jhash
 
 PROP = "C11"
@@ -22,6 +23,7 @@ NAMES = [b"a", b"a.b", b"a-b", b"a0", b"b", b"A", "é".encode(), b"a b", b"x", b
          b".git", b".svn", b"BaseDirList.txt~", b"c", b"ab"]
 SIZES = [0, 1, 2, 100, 16383, 16384, 16385, 65537]
 MODES = [0o644, 0o755, 0o600, 0o444, 0o4755, 0o640, 0o000, 0o1777, 0o700]
+LINK_TARGETS = [b"a", b"../a", b"/abs/path", b"", b"b/c", b"\xc3\xa9"]
 T0 = 1_500_000_000 * 10**9
 
 def content(seed, size):
@@ -134,7 +136,7 @@ def apply(t, op):
         d, n = pick(dirs, op[1]), pick(NAMES, op[2])
         r = os.path.join(d, n) if d else n
         if os.path.lexists(t.p(r)): return None
-        os.symlink(pick([b"a", b"../a", b"/abs/path", b"", b"b/c", b"\xc3\xa9"], op[3]) or b".", t.p(r))
+        os.symlink(pick(LINK_TARGETS, op[3]) or b".", t.p(r))
         t.tick(t.p(r)); return r
     if kind == "retarget":
         r = pick(links, op[1])
@@ -257,7 +259,7 @@ def run_case(ctx, case):
                 ctx.fail("equal-trees-different-hash", "re-created copy (reverse=%s) hashes %s, original %s" %
                          (rev, hc.hex(), h_plain.hex()), case)
     finally:
-        os.system("chmod -R u+rwx %s 2>/dev/null; rm -rf %s" % (base, base))
+        vlib.rmtree(base)
     ctx.record(jhash(ops), nontriv, ["ops:%d" % min(len(ops) // 10 * 10, 40)] + ["op:" + o for o in {o[0] for o in ops}],
                {"ops": ops[:12]})
 
